@@ -233,6 +233,10 @@ class Report:
                                         % (r["case"], cv["id"]))
             for ob in r["obligations"]:
                 if ob["status"] == "unknown":
+                    if match_finding(self.findings, self.pid, ob["id"], None) is not None and \
+                            ob["backend"] == "skipped-after-3-failures":
+                        ob["known"] = True      # further paths of a clause that is a listed finding
+                        continue
                     self.undecided.append("%s: %s undecided (%s)" % (r["case"], ob["id"], ob["backend"]))
                 elif ob["status"] == "refuted":
                     case = self.cases[r["case"]]
@@ -284,6 +288,10 @@ class Report:
             f = match_finding(self.findings, self.pid, ob["id"], inputs)
             if f is not None:
                 self.known.append((f, ob["id"]))
+                ob["known"] = True
+                for key2, rec2 in per_ob.items():
+                    if rec2["ob"]["id"] == ob["id"]:
+                        rec2["ob"]["known"] = True
                 continue
             self.nreplay += 1
             os.makedirs(os.path.join(EVID, "replay"), exist_ok=True)
@@ -374,6 +382,8 @@ class Report:
         obs = [o for r in self.results for o in r["obligations"]]
         unb = [o for r in self.results for o in r["obligations"] if self.cases[r["case"]].bounded is None]
         bnd = [o for r in self.results for o in r["obligations"] if self.cases[r["case"]].bounded is not None]
+        known_obs = [o for o in unb if o.get("known")]
+        unb = [o for o in unb if not o.get("known")]
         proved = [o for o in unb if o["status"] == "proved"]
         functions = sorted({f for c in self.cases.values() for f in c.functions})
         by_backend = {}
@@ -436,6 +446,7 @@ class Report:
             "rewrites": _merge_rewrites(self.results),
             "extra_steps": [{k: v for k, v in e.items() if k not in ("violations",)} for e in self.extra],
             "known_findings_printed": sorted({f["raw"] for f, _ in self.known}),
+            "obligations_failing_as_listed_known_findings": len(known_obs),
             "undecided": self.undecided[:20],
             "samples": samples or [{"note": "no symbolic case"}],
             "evaluations": len(obs) + self.conf["runs"],
